@@ -270,3 +270,39 @@ def activation_functions_are_elementwise_and_their_custom_backward_is_the_deriva
     o2 = S.method(act, "forward", X).val
     av = zreal(a.val.at([() for _ in a.val.shape]))
     S.forall("adaptive-activation-is-act-of-scaling-times-a-times-x", Tensor(o2), lambda q: zreal(o2.at(q)) == tlib.cos_sin(z3.simplify(3 * av * x_at(q)))[1])
+
+
+@scenario("C08", [M + "model.Parallel.forward", M + "model.Sequential.forward", M + "model.Parallel.__init__", M + "model.Sequential.__init__"], configs=["parallel", "sequential"], bounded=BOUND + "; a history of four calls on ONE composed model, the variables presented in changing orders and batch sizes")
+def compositions_do_not_depend_on_the_order_used_in_earlier_calls(S):
+    """history: one Parallel / Sequential instance is evaluated on (x,t), then (t,x), then (x,t) again, then (t,x)
+    with another number of rows; every call is the join / composition of the parts on their own named variables"""
+    I = S.I
+    from tpv import tshape
+
+    xt, tx, u = spaces(S)
+    if S.cfg == "parallel":
+        A = AbstractModel(S, "A", S.new(RN, "x", 2), S.new(RN, "u", 1))
+        Bm = AbstractModel(S, "B", tx, S.new(RN, "v", 1))
+        comp = S.new(M + "model.Parallel", A.obj, Bm.obj)
+        want = lambda rin: [lambda: A.out_terms(rin(["x"]))[0], lambda: Bm.out_terms(rin(["t", "x"]))[0]]
+    else:
+        A = AbstractModel(S, "A", xt, S.new(RN, "w", 2))
+        Bm = AbstractModel(S, "B", S.new(RN, "w", 2), u)
+        comp = S.new(M + "model.Sequential", A.obj, Bm.obj)
+        want = lambda rin: [(lambda c=c: Bm.out_terms(A.out_terms(rin(["x", "t"])))[c]) for c in range(2)]
+    for j, (order, rows) in enumerate([("xt", "N"), ("tx", "N"), ("xt", "N"), ("tx", "M")]):
+        n = S.int(f"{rows}", 1)
+        X, T = S.tensor(f"X{j}", [n, 2]), S.tensor(f"T{j}", [n, 1])
+        data = Tensor(tshape.cat(I, [X.val, T.val] if order == "xt" else [T.val, X.val], 1))
+        o = S.method(comp, "forward", S.new(POINTS, data, xt if order == "xt" else tx))
+        t = tensor_of(o)
+        ok = t.rank == 2 and t.shape[1].concrete() == 2 and t.shape[0].size_term() == zint(n)
+        S.ensure(f"call-{j + 1}-({order}):shape", ok)
+        if not ok:
+            return
+
+        def rin_of(q, X=X, T=T):
+            vals = {"x": [zreal(X.val.at([q[0], (c,)])) for c in range(2)], "t": [zreal(T.val.at([q[0], ()]))]}
+            return lambda names: [v for nm in names for v in vals[nm]]
+
+        S.forall(f"call-{j + 1}-({order}):parts-evaluated-on-their-own-named-variables", o.f["_t"], lambda q, t=t, rin_of=rin_of: zreal(t.at(q)) == core.select_comp(q[1][0], 2, want(rin_of(q))))
